@@ -206,7 +206,7 @@ def directed():
 
 
 def generate(rng, tier):
-    n_wf, n_mal = (500, 350) if tier == "quick" else (9000, 5000)
+    n_wf, n_mal = (500, 350) if tier == "quick" else (5000, 3000)
     out = []
     for _ in range(n_wf):
         spec = _rand_spec(rng)
